@@ -130,8 +130,8 @@ def build_ir(sources, extra=(), jobs=16):
     return out, files
 
 
-def build_native(sources, extra=(), jobs=16, openmp=False, sanitize=None):
-    files3 = expand(sources) + [(os.path.join(VERIF, 'runtime', 'vrt.cpp'), (), ())]
+def build_native(sources, extra=(), jobs=16, openmp=False, sanitize=None, runtime_flags=(), link_flags=()):
+    files3 = expand(sources) + [(os.path.join(VERIF, 'runtime', 'vrt.cpp'), (), tuple(runtime_flags))]
     ex_flags = list(extra)
     if openmp:
         ex_flags.append('-fopenmp')
@@ -139,11 +139,11 @@ def build_native(sources, extra=(), jobs=16, openmp=False, sanitize=None):
         ex_flags += [f'-fsanitize={sanitize}', '-g']
     with ThreadPoolExecutor(jobs) as ex:
         objs = list(ex.map(lambda fab: compile_obj(fab[0], ex_flags + list(fab[2])), files3))
-    h = hashlib.sha256(' '.join(objs).encode()).hexdigest()[:24]
+    h = hashlib.sha256((' '.join(objs) + ' '.join(link_flags)).encode()).hexdigest()[:24]
     out = os.path.join(CACHE, 'exe_' + h)
     if not os.path.exists(out):
         tmp = out + f'.{os.getpid()}.tmp'
-        link = ['g++', '-rdynamic'] + objs + ['-o', tmp, '-ldl']
+        link = ['g++', '-rdynamic'] + objs + ['-o', tmp, '-ldl'] + list(link_flags)
         if openmp:
             link.append('-fopenmp')
         if sanitize:
